@@ -63,6 +63,19 @@ def _msg_stores(ctx, fi):
         for (t, v, how) in targets_of(n.ast):
             if isinstance(t, ast.Attribute) and t.attr == "msg":
                 src = v if isinstance(v, ast.AST) else None
+                if isinstance(src, ast.Name):
+                    # the bytes come through a local that several branches may bind: each reaching definition is a source of its own
+                    # (payload = decrypt_gcm(...) under the key, payload = datagram[...] without), judged where it is made
+                    defs = defuse_of(fi).reaching(src.id, n.id)
+                    if len(defs) > 1 and all(d[0] != "ENTRY" and isinstance(d[1], ast.AST) for d in defs):
+                        for d in defs:
+                            dn = cfg.nodes[d[0]]
+                            if isinstance(d[1], ast.Call) and norm(d[1].func).endswith("decrypt_gcm"):
+                                if dn not in auth:
+                                    auth.append(dn)
+                            elif dn not in unauth:
+                                unauth.append(dn)
+                        continue
                 src = resolve_arg(fi, src, src) if isinstance(src, ast.Name) else src
                 if isinstance(src, ast.Call) and norm(src.func).endswith("decrypt_gcm"):
                     auth.append(n)
